@@ -63,7 +63,7 @@ FAM_T = FAM_Q + ["offset>>edge", "pico", "mega"]
 NS_Q = {1: [(3,), (1,)], 2: [(3, 2), (1, 4)], 3: [(3, 2, 4), (2, 1, 3)], 4: [(2, 3, 1, 2)]}
 NS_T = {1: NS_Q[1] + [(2,), (7,), (12,)], 2: NS_Q[2] + [(4, 1), (2, 2), (5, 3)], 3: NS_Q[3] + [(1, 1, 1), (4, 3, 2), (1, 5, 1)],
         4: NS_Q[4] + [(3, 2, 2, 2), (1, 1, 1, 1), (2, 1, 3, 2)]}
-UNITS = {"default": None, "distinct": C.UNITS_DISTINCT}
+UNITS = {"default": None, "distinct": C.UNITS_DISTINCT, "one-empty": ["nm", "", "s", "K"]}  # '' = a dimensionless axis
 LABELS = {"default": None, "custom": ("a", "b", "c", "d"), "odd": ("my comp", "B-2", "mz", "d_4")}
 DTYPES_Q = ["float64", "int64", "complex128"]
 DTYPES_T = DTYPES_Q + ["float32", "bool"]
@@ -75,7 +75,7 @@ def _meshes(tier):
     return [n for d in (1, 2, 3, 4) for n in ns[d]]
 
 
-def _mesh(n, fam, dims=None, units=None, tol=None):
+def _mesh(n, fam, dims=None, units=None, tol=None, bc=""):
     spec = FAMILIES[fam][: len(n)]
     pmin = [s[0] for s in spec]
     pmax = [s[0] + s[1] * k for s, k in zip(spec, n)]
@@ -83,7 +83,9 @@ def _mesh(n, fam, dims=None, units=None, tol=None):
     if tol is not None:
         kw["tolerance_factor"] = tol
     reg = df.Region(p1=pmin, p2=pmax, dims=dims, units=None if units is None else units[: len(n)], **kw)
-    return df.Mesh(region=reg, n=n)
+    if bc == "periodic-first-axis":
+        bc = reg.dims[0] if len(reg.dims[0]) == 1 else "neumann"
+    return df.Mesh(region=reg, n=n, bc=bc)
 
 
 def _data(n, nvdim, dtype, seed):
@@ -97,11 +99,11 @@ def _data(n, nvdim, dtype, seed):
     return t.astype(dtype)
 
 
-def _field(n, fam, nvdim, labels="default", dtype="float64", seed=0, dims=None, units=None, tol=None, unit=None):
+def _field(n, fam, nvdim, labels="default", dtype="float64", seed=0, dims=None, units=None, tol=None, unit=None, bc=""):
     keyorder = labels.endswith("+mapping-keys-reversed")
     axisorder = labels.endswith("+mapping-permuted-keys-in-axis-order")
     lab = LABELS[labels.split("+")[0]]
-    mesh = _mesh(n, fam, dims, units, tol)
+    mesh = _mesh(n, fam, dims, units, tol, bc)
     kw = {}
     if keyorder and lab is not None and nvdim > 1:
         # an explicit component-to-axis mapping whose dict lists the keys in another order than vdims
@@ -226,13 +228,15 @@ def unit_export(ctx):
     n = ctx.choose("n", _meshes(ctx.tier))
     fam = ctx.choose("geom", FAM_T if thorough else FAM_Q)
     dims = ctx.choose("dims", C.DIMSETS[len(n)])
-    units = ctx.choose("units", ["default", "distinct"])
+    units = ctx.choose("units", ["default", "distinct", "one-empty"])
     nvdim = ctx.choose("nvdim", [1, 2, 3, 4])
     labels = ctx.choose("labels", ["default", "custom", "custom+mapping-keys-reversed", "custom+mapping-permuted-keys-in-axis-order"] + (["odd"] if thorough else []))
     dtype = ctx.choose("dtype", DTYPES_T if thorough else DTYPES_Q)
     tol = ctx.choose("tolerance", [None, 1e-6] if thorough else [None])
+    # boundary conditions are not carried by a DataArray; the exported field is still "equal" to its re-import
+    bc = ctx.choose("bc", ["", "periodic-first-axis", "dirichlet"]) if labels == "default" and dtype == "float64" else ""
     unit = "A/m" if nvdim % 2 else None
-    f = _field(n, fam, nvdim, labels, dtype, ctx.seed, dims=dims, units=UNITS[units], tol=tol, unit=unit)
+    f = _field(n, fam, nvdim, labels, dtype, ctx.seed, dims=dims, units=UNITS[units], tol=tol, unit=unit, bc=bc)
     inst = ctx.key()
     before = C.field_snap(f)
     ctx.step(1, "to_xarray")
@@ -240,8 +244,13 @@ def unit_export(ctx):
     if not _check_export(ctx, f, xa, inst):
         return
     ctx.step(1, "from_xarray")
+    xsnap = _xa_snap(xa)
     r = df.Field.from_xarray(xa)
-    ctx.check()
+    ctx.check(2)
+    xnow = _xa_snap(xa)
+    if xnow != xsnap:
+        ctx.fail("Field.from_xarray/the-DataArray-was-modified", "attributes, values or coordinates of the imported DataArray changed",
+                 instance=inst)
     if C.field_snap(f) != before:
         ctx.fail("Field.to_xarray/operand-modified", "field changed by export/import", instance=inst)
     _check_equal(ctx, f, r, inst)
@@ -251,6 +260,15 @@ def unit_export(ctx):
 
 # ---------------------------------------------------------------------------
 # import with attributes removed
+
+
+def _xa_snap(xa):
+    """everything a caller can see of a DataArray: attributes, values, coordinates and their attributes"""
+    def norm(v):
+        return np.array(v).tolist() if hasattr(v, "__len__") and not isinstance(v, str) else v
+    return (dict((k, norm(v)) for k, v in xa.attrs.items()), xa.values.tobytes(),
+            {d: (np.asarray(xa[d].values).tobytes() if xa[d].values.dtype.kind != "U" else tuple(xa[d].values), dict(xa[d].attrs))
+             for d in xa.coords})
 
 
 def _strip(xa, removed, dims):
@@ -281,7 +299,12 @@ def unit_strip(ctx):
     xa = _strip(f.to_xarray(), removed, f.mesh.region.dims)
     ctx.step(1, f"from_xarray without {removed}")
     single = any(k == 1 for k in n)
+    xsnap = _xa_snap(xa)
     raised, r = C.raises(df.Field.from_xarray, xa)
+    ctx.check()
+    if _xa_snap(xa) != xsnap:
+        ctx.fail("Field.from_xarray/the-DataArray-was-modified", f"import without {removed}: attributes now {sorted(xa.attrs)}",
+                 instance=inst)
     if raised:
         if "cell" in removed and single:
             ctx.note("refused:single-cell-axis-without-cell")  # no spacing to rebuild from: legitimate
